@@ -777,7 +777,7 @@ impl Machine {
         let tag = ((self.step as u64) << 20) | u64::from(rec[10]) << 8 | u64::from(rec[11]);
         let universe = self.profile.key_universe;
         let op = if def.multi {
-            AnyOp::M(decode_mop(r, def.kty, def.vty, &self.cfg, universe.min(24), 300))
+            AnyOp::M(decode_mop(r, def.kty, def.vty, &self.cfg, universe.min(6), 120))
         } else {
             AnyOp::T(decode_top(r, def.kty, def.vty, &self.cfg, universe, tag, self.profile.allow_panic))
         };
@@ -1281,7 +1281,7 @@ impl Machine {
         let tag = u64::from(rec[10]) << 8 | u64::from(rec[11]);
         let universe = self.profile.key_universe;
         let mut op = if def.multi {
-            AnyOp::M(decode_mop(r, def.kty, def.vty, &self.cfg, universe.min(24), 300))
+            AnyOp::M(decode_mop(r, def.kty, def.vty, &self.cfg, universe.min(6), 120))
         } else {
             AnyOp::T(decode_top(r, def.kty, def.vty, &self.cfg, universe, tag, false))
         };
